@@ -32,7 +32,9 @@ func c14Order(c *run.Ctx) {
 			text string
 			val  uint32
 		}
-		oes := []oe{{"(ova * 2u)", ov[0] * 2}, {"(ova + ovb)", ov[0] + ov[1]}, {"(ovb * ova + 3u)", ov[1]*ov[0] + 3}, {"(ovb * 4u - ovb)", ov[1]*4 - ov[1]}, {"ova", ov[0]}, {"(ova * ovb * 2u)", ov[0] * ov[1] * 2}}
+		oes := []oe{{"(ova * 2u)", ov[0] * 2}, {"(ova + ovb)", ov[0] + ov[1]}, {"(ovb * ova + 3u)", ov[1]*ov[0] + 3}, {"(ovb * 4u - ovb)", ov[1]*4 - ov[1]}, {"ova", ov[0]}, {"(ova * ovb * 2u)", ov[0] * ov[1] * 2},
+			// expressions over lets that are themselves derived from overrides (folded where they are used, in the middle of a range)
+			{"(sa * sb)", (ov[0] * 2) * (ov[1] + 1)}, {"(sa + 1u)", ov[0]*2 + 1}, {"(sb * 3u - sa)", (ov[1]+1)*3 - ov[0]*2}}
 		pick := func() oe { return oes[r.Intn(len(oes))] }
 		var b [16]uint32
 		for k := range b {
@@ -142,6 +144,8 @@ override ovb: u32;
 @group(0) @binding(1) var<storage, read_write> o: array<u32, 16>;
 fn bump(i: u32) -> u32 { b[i] = b[i] + 1u; return b[i]; }
 @compute @workgroup_size(1) fn main() {
+    let sa = ova * 2u;
+    let sb = ovb + 1u;
     ` + strings.Join(lines, "\n    ") + `
 }
 `
